@@ -275,7 +275,7 @@ def t2(repo, res, canon, pc, logic):
                         if x.kind in ('back', 'exit'):
                             break
                         for ef in effects_of_event(canon, x):
-                            if ef.kind == 'append' and ef.loc == cand and ef.arg == M:
+                            if ef.kind in ('append', 'add') and ef.loc == cand and ef.arg == M:
                                 app = True
                     if app:
                         found, L = True, cand
